@@ -268,6 +268,17 @@ func checkAdd(w *core.World, st *core.Step, prop string) {
 			}
 			return
 		}
+		// a working tree that holds a link to nowhere (or to a directory) cannot be read completely: a refusal that
+		// changes nothing is the right answer there
+		for p, what := range st.Pre.Odd {
+			if _, readable := st.Pre.Files[p]; strings.HasPrefix(p, "w/") && strings.HasPrefix(what, "symlink -> ") && !readable {
+				c.Count(prop + ".add-refused-with-unreadable-link")
+				if !EqualMaps(idx0, idx1) && !HasConflict(m.Expected(idx0)[0]) {
+					c.Oracle(prop + ".refusal-frame")
+				}
+				return
+			}
+		}
 		// the statement is about the state after the command, not its exit status: a non-zero
 		// exit is a violation only if the named paths were not staged as stated
 		c.Oracle(prop + ".add.valid-refused")
@@ -419,6 +430,9 @@ func checkRm(w *core.World, st *core.Step) {
 	// collateral: whatever the exit status
 	c.Oracle("C04.rm.collateral")
 	for p, b := range wt0 {
+		if sameLink(st, p) {
+			continue // still the same link: what it shows is another file's state
+		}
 		nb, still := wt1[p]
 		if !still && !sel[p] && !optional[p] {
 			w.Fail("C04.rm.collateral", "unselected-file-deleted", trig, "%s deleted %q which it did not name (tracked: %v)", st.String(), p, idx0[p] != "")
@@ -427,7 +441,7 @@ func checkRm(w *core.World, st *core.Step) {
 		}
 	}
 	for p := range wt1 {
-		if _, was := wt0[p]; !was {
+		if _, was := wt0[p]; !was && !sameLink(st, p) {
 			w.Fail("C04.rm.collateral", "file-created", trig, "%s created %q", st.String(), p)
 		}
 	}
@@ -470,6 +484,10 @@ func checkRm(w *core.World, st *core.Step) {
 					return fmt.Sprintf("%q is still in the working tree", p)
 				}
 			}
+			// a tracked link is a path of the working tree also when what it points to is gone
+			if lk := st.Post.Odd["w/"+p]; strings.HasPrefix(lk, "symlink -> ") && st.Pre.Odd["w/"+p] == lk {
+				return fmt.Sprintf("the link %q is still in the working tree", p)
+			}
 		}
 		return ""
 	}
@@ -493,6 +511,9 @@ func runC04(c *core.Ctx) {
 			"restore-staged": 3, "reset": 2, "restore": 1,
 		}
 		k := NewWalker(w, gen.NameOpts{Space: true, NonASCII: w.Hist%3 == 0, Meta: w.Hist%2 == 0, MaxDepth: 4, N: 6 + w.Hist%5}, wts)
+		if w.Hist%4 == 1 {
+			k.Enable("edit-link-over", 5) // links at tracked paths: rm removes the link, not what it points to
+		}
 		k.Hostile = 8
 		k.Swap = false
 		if w.Hist%5 == 2 {
@@ -509,6 +530,19 @@ func runC04(c *core.Ctx) {
 				break
 			}
 			w.Write(p, k.content())
+		}
+		if w.Hist%8 == 3 {
+			// a tracked link and the file it points to, removed by one command in either order
+			w.Write("lk/tgt", k.content())
+			w.Symlink("lk/lnk", "tgt")
+			w.Symlink("lk/z-lnk", "tgt")
+			k.goit("add", "lk")
+			if w.Hist%16 == 3 {
+				k.goit("rm", "lk/tgt", "lk/lnk")
+			} else {
+				k.goit("rm", "lk/lnk", "lk/tgt")
+			}
+			k.goit("rm", "lk/z-lnk")
 		}
 		if w.Hist == 2 || (c.Thorough() && w.Hist%1500 == 2) {
 			// two files just beyond 100 MiB that differ only in their last bytes
